@@ -319,7 +319,7 @@ def _show(fl, fcommon, has_init):
 # =============================================================================================
 def r152(cg, rep):
     rep.rule('R15.2', 'emit_text: a function is emitted iff is_function and is_definition and is_live; binding by is_static; in .text, '
-             'typed @function, one entry label; current_fn designates it while its body is generated; the walk continues after every kind of entry', floor=10)
+             'typed @function, one entry label; current_fn designates it while its body is generated; the walk continues after every kind of entry', floor=14)
     fn = cg.cu.fn('emit_text')
     fline = fn.line
 
@@ -409,49 +409,144 @@ def r152(cg, rep):
     if n == 0:
         raise AnalysisBroken('emit_text: no path explored')
     ag.flush(fline)
+    # ---- codegen(): both emitters run once over the whole program, after frame layout, writing to the given file
+    ag = Agg(rep, 'R15.2', CGU, 'codegen')
+    if 'codegen' not in cg.cu.functions:
+        raise AnalysisBroken('codegen.c: anchor function codegen vanished')
+    fline = cg.cu.fn('codegen').line
+
+    def rec(name):
+        def h(it, ctx, n, args):
+            ctx.emit('phase', name, _final(it, args[0]), ctx.globals.get('output_file'), n.line)
+            return None
+        return h
+    it = cg.interp(extra_cut={'emit_data': rec('emit_data'), 'emit_text': rec('emit_text'), 'assign_lvar_offsets': rec('assign_lvar_offsets')}, opaque=('get_input_files',))
+
+    def mk(ctx):
+        ctx.c15_prog = Obj('Obj', lazy=True, label='prog')
+        ctx.c15_out = Sym('out', 'FILE *')
+        return [ctx.c15_prog, ctx.c15_out]
+    res = it.explore('codegen', mk)
+    rets = [(c, o) for c, o in res if o[0] == 'ret']
+    if not rets:
+        ag.undecided('phases', 'codegen() has no returning path', fline)
+    for ctx, out in rets:
+        ph = [e for e in ctx.events if e[0] == 'phase']
+        names = [e[1] for e in ph]
+        facts = {'phases': names, 'path': ctx.trail[-4:]}
+        ok = names.count('emit_data') == 1 and names.count('emit_text') == 1 and all(e[2] is ctx.c15_prog for e in ph)
+        ag.note('phases/data-and-text-once', ok, 'codegen() runs %s: every object and every live function of the program must be emitted exactly once' % (names or 'no emitter'), fline, facts)
+        if ok:
+            ag.note('phases/frame-layout-first', 'assign_lvar_offsets' in names and names.index('assign_lvar_offsets') < names.index('emit_text'),
+                    'emit_text runs before assign_lvar_offsets: local variables are addressed with offset 0', fline, facts)
+            ag.note('phases/output-file', all(e[3] is not None and same(e[3], ctx.c15_out) for e in ph if e[1] != 'assign_lvar_offsets'),
+                    'the emitters run while output_file is not the stream given to codegen()', fline, facts)
+    ag.flush(fline)
 
 
 # =============================================================================================
 # R15.4 address forms
 # =============================================================================================
 def _addr_form(lines, NAME, OFF):
-    """classify the instruction sequence that forms an address"""
+    """symbolic evaluation of the emitted sequence: which address ends up in %rax?
+    returns (form, None) | ('garbage', description) | (None, unknown instruction)"""
+    import re
     L = [l for l in lines if l.kind != 'blank']
-    ins = [(l.head, l.ops) for l in L]
+    regs = {}
 
-    def is1(i, head, *ops):
-        if i >= len(ins) or ins[i][0] not in ((head,) if isinstance(head, str) else head) or len(ins[i][1]) != len(ops):
-            return False
-        for o, want in zip(ins[i][1], ops):
-            if isinstance(want, tuple):
-                if not op_is(o, want[0], want[1]):
-                    return False
-            elif o[1] or o[0] != want:
-                return False
-        return True
-    MOV, LEA, ADD = ('mov', 'movq'), ('lea', 'leaq'), ('add', 'addq')
-    if len(ins) == 1:
-        if is1(0, MOV, (A + '(%rbp)', OFF), '%rax'):
-            return 'frame-load'
-        if is1(0, LEA, (A + '(%rbp)', OFF), '%rax'):
-            return 'frame-lea'
-        if is1(0, MOV, (A + '@GOTPCREL(%rip)', NAME), '%rax'):
-            return 'got'
-        if is1(0, LEA, (A + '(%rip)', NAME), '%rax'):
-            return 'rip'
-    if len(ins) == 2:
-        if is1(0, MOV, '%fs:0', '%rax') and is1(1, ADD, ('$' + A + '@tpoff', NAME), '%rax'):
-            return 'tls-le'
-        if is1(0, MOV, ('$' + A + '@tpoff', NAME), '%rax') and is1(1, ADD, '%fs:0', '%rax'):
-            return 'tls-le'
-        if is1(0, MOV, (A + '@gottpoff(%rip)', NAME), '%rax') and is1(1, ADD, '%fs:0', '%rax'):
-            return 'tls-ie'
-    if len(ins) == 4:
-        if is1(0, ('data16 lea', 'data16 leaq'), (A + '@tlsgd(%rip)', NAME), '%rdi') and \
-           (is1(1, ('.value', '.word', '.short'), '0x6666')) and is1(2, 'rex64') and \
-           (is1(3, 'call', '__tls_get_addr@PLT') or is1(3, 'call', '__tls_get_addr@plt')):
-            return 'tls-gd'
-    return None
+    def sym(a, key, what):
+        if vkey(a) != key:
+            raise _Garbage('%s is formed with %r instead of the variable\'s %s' % (what, a, 'name' if key == NAME else 'frame offset'))
+
+    def operand(op):
+        sh, aa = op
+        if sh == A + '(%rbp)':
+            sym(aa[0], OFF, 'the frame address'); return ('frame',)
+        if re.match(r'^-?\d+\(%rbp\)$', sh) and not aa:
+            raise _Garbage('a constant frame offset %s is used instead of the variable\'s offset' % sh)
+        for suffix, kind in (('(%rip)', 'pcrel'), ('@GOTPCREL(%rip)', 'gotslot'), ('@tlsgd(%rip)', 'tlsgd'), ('@gottpoff(%rip)', 'gottpoffslot')):
+            if sh == A + suffix:
+                sym(aa[0], NAME, 'the symbol reference'); return (kind,)
+        if sh == '$' + A + '@tpoff':
+            sym(aa[0], NAME, 'the TLS offset'); return ('imm-tpoff',)
+        if sh == '%fs:0' and not aa:
+            return ('mem-tp',)
+        if re.match(r'^%[a-z0-9]+$', sh) and not aa:
+            return ('reg', sh)
+        return None
+
+    def value(o, lea=False):
+        k = o[0]
+        if lea:
+            return {'frame': ('frame-addr',), 'pcrel': ('addr-pcrel',), 'tlsgd': ('tlsgd-arg',)}.get(k)
+        if k == 'reg':
+            return regs.get(o[1], ('undefined', o[1]))
+        return {'frame': ('load-frame',), 'gotslot': ('addr-via-got',), 'gottpoffslot': ('tpoff-via-got',), 'mem-tp': ('tp',), 'imm-tpoff': ('tpoff',)}.get(k)
+    try:
+        for l in L:
+            if l.kind == 'dir':
+                if l.head in ('.value', '.word', '.short', '.byte') and len(l.ops) == 1 and not l.ops[0][1]:
+                    continue            # padding prefixes of the general-dynamic pattern
+                return None, l.text.strip()
+            if l.kind != 'ins':
+                return None, l.text.strip()
+            h = l.head
+            if h == 'rex64' and not l.ops:
+                continue
+            if h.startswith('data16 '):
+                h = h[7:]
+            if h in ('mov', 'movq', 'lea', 'leaq', 'add', 'addq') and len(l.ops) == 2:
+                src, dst = operand(l.ops[0]), operand(l.ops[1])
+                if src is None or dst is None or dst[0] != 'reg':
+                    return None, l.text.strip()
+                v = value(src, lea=h.startswith('lea'))
+                if v is None:
+                    return None, l.text.strip()
+                if h.startswith('add'):
+                    old = regs.get(dst[1], ('undefined', dst[1]))
+                    v = ('sum', frozenset([old, v]))
+                regs[dst[1]] = v
+                continue
+            if h == 'call' and len(l.ops) == 1 and not l.ops[0][1] and l.ops[0][0].lower() == '__tls_get_addr@plt':
+                regs['%rax'] = ('tls-addr', regs.get('%rdi', ('undefined', '%rdi')))
+                continue
+            return None, l.text.strip()
+    except _Garbage as g:
+        return 'garbage', str(g)
+    r = regs.get('%rax')
+    if r is None:
+        return 'garbage', 'nothing is left in %rax'
+    simple = {('load-frame',): 'frame-load', ('frame-addr',): 'frame-lea', ('addr-via-got',): 'got', ('addr-pcrel',): 'rip'}
+    if r in simple:
+        return simple[r], None
+    if r == ('sum', frozenset([('tp',), ('tpoff',)])):
+        return 'tls-le', None
+    if r == ('sum', frozenset([('tp',), ('tpoff-via-got',)])):
+        return 'tls-ie', None
+    if r == ('tls-addr', ('tlsgd-arg',)):
+        heads = [(l.head, [o[0] for o in l.ops]) for l in L]
+        canon = len(L) == 4 and heads[0][0] in ('data16 lea', 'data16 leaq') and heads[0][1][1:] == ['%rdi'] and heads[1][0] in ('.value', '.word', '.short') and \
+            heads[1][1] == ['0x6666'] and heads[2] == ('rex64', []) and heads[3][0] == 'call'
+        if not canon:
+            return 'garbage', ('the general-dynamic call is not the exact 16-byte pattern `data16 lea x@tlsgd(%rip),%rdi; .value 0x6666; rex64; call __tls_get_addr@PLT` '
+                               'the TLS ABI prescribes (the linker rewrites these bytes when it relaxes the access in an executable)')
+        return 'tls-gd', None
+    return 'garbage', 'the value left in %%rax is %s, which is not the address of the variable' % _show_val(r)
+
+
+class _Garbage(Exception):
+    pass
+
+
+def _show_val(r):
+    if r[0] == 'sum':
+        return ' + '.join(sorted(_show_val(x) for x in r[1]))
+    if r[0] == 'undefined':
+        return '<previous contents of %s>' % r[1]
+    if r[0] == 'tls-addr':
+        return '__tls_get_addr(%s)' % _show_val(r[1])
+    return {'tp': 'thread pointer', 'tpoff': 'x@tpoff', 'tpoff-via-got': 'x@gottpoff', 'tlsgd-arg': '&x@tlsgd', 'load-frame': 'load of off(%rbp)',
+            'frame-addr': 'off(%rbp)', 'addr-via-got': 'GOT(x)', 'addr-pcrel': 'x(%rip)'}.get(r[0], repr(r))
 
 
 FORM_DOC = {
@@ -465,21 +560,23 @@ FORM_DOC = {
 }
 
 
-def _want_addr(vla, local, fpic, tls, func, defn):
+def _want_addr(vla, local, fpic, tls, func, defn, static):
+    """(required form, other acceptable forms, cell name)"""
     if vla:
-        return 'frame-load', 'vla'
+        return 'frame-load', (), 'vla'
     if local:
-        return 'frame-lea', 'local'
+        return 'frame-lea', (), 'local'
     d = 'defined' if defn else 'extern'
     if fpic:
         if tls:
-            return 'tls-gd', 'pic+tls/' + d
-        return 'got', 'pic/%s-%s' % (d, 'function' if func else 'object')
+            return 'tls-gd', (), 'pic+tls/' + d
+        # a symbol with internal linkage that is defined here cannot be interposed: RIP-relative is as good as the GOT
+        return 'got', (('rip',) if (static and defn) else ()), 'pic/%s-%s' % (d, 'function' if func else 'object')
     if tls:
-        return 'tls-le', 'tls/' + d
+        return 'tls-le', (), 'tls/' + d
     if func:
-        return ('rip' if defn else 'got'), 'function/' + d
-    return 'rip', 'object/' + d
+        return ('rip' if defn else 'got'), (('got',) if defn else ()), 'function/' + d
+    return 'rip', (), 'object/' + d
 
 
 def r154(cg, rep):
@@ -491,7 +588,7 @@ def r154(cg, rep):
     NAME, OFF = ('sym', 'var.name'), ('sym', 'var.offset')
     n = 0
     for tyname in ('vla', 'func', 'int', 'array'):
-        for fl in _bits(('is_local', 'is_tls', 'is_definition', 'fpic')):
+        for fl in _bits(('is_local', 'is_tls', 'is_definition', 'fpic', 'is_static')):
             vla, func = tyname == 'vla', tyname == 'func'
             # typing relation: a VLA is always a local; functions and thread-locals are never locals; functions are not thread-local
             if vla and not fl['is_local']:
@@ -500,19 +597,20 @@ def r154(cg, rep):
                 continue
             if func and fl['is_tls']:
                 continue
+            if fl['is_static'] and (fl['is_local'] or not fl['is_definition']):
+                continue        # internal linkage implies a definition in this unit; locals have no linkage
 
             def mk(ctx, fl=fl, tyname=tyname):
                 nd = cg.node('node', 'ND_VAR')
                 ty = _tyobj(cg, 'var.ty', tyname)
                 v = Obj('Obj', lazy=True, label='var')
-                v.fields.update(dict(is_local=fl['is_local'], is_tls=fl['is_tls'], is_definition=fl['is_definition'], is_function=int(tyname == 'func'),
+                v.fields.update(dict(is_local=fl['is_local'], is_tls=fl['is_tls'], is_definition=fl['is_definition'], is_static=fl['is_static'], is_function=int(tyname == 'func'),
                                      name=Sym('var.name', 'char *'), offset=Sym('var.offset', 'int'), ty=ty))
                 nd.fields['var'] = v
                 nd.fields['ty'] = ty
                 return nd
             it, res = cg.explore('gen_addr', mk)
-            it2 = it
-            want, cell = _want_addr(vla, fl['is_local'], fl['fpic'], fl['is_tls'], func, fl['is_definition'])
+            want, also, cell = _want_addr(vla, fl['is_local'], fl['fpic'], fl['is_tls'], func, fl['is_definition'], fl['is_static'])
             key = 'ND_VAR/' + cell
             got_any = False
             for ctx, out in res:
@@ -530,21 +628,24 @@ def r154(cg, rep):
                 got_any = True
                 n += 1
                 lines = lines_of(it, ctx)
-                form = _addr_form(lines, NAME, OFF)
+                form, detail = _addr_form(lines, NAME, OFF)
                 facts = {'variable': dict(fl, type=tyname), 'path': ctx.trail[-6:], 'emitted': [l.text for l in lines]}
                 sl = lines[0].src_line if lines else fline
                 if form is None:
-                    if any(e[0] in ('gen_expr', 'gen_addr', 'gen_stmt') for e in ctx.events) or not lines:
+                    if not lines:
                         ag.note(key, False, 'no address is formed for a variable reference of class %s' % cell, sl, facts)
                     else:
-                        ag.undecided(key, 'instruction sequence %s is not an address form this rule knows' % [l.text.strip() for l in lines], sl)
+                        ag.undecided(key, '`%s` is not an instruction this rule can evaluate' % detail, sl)
+                    continue
+                if form == 'garbage':
+                    ag.note(key, False, 'for a %s: %s (emitted: %s)' % (_cell_doc(cell), detail, '; '.join(l.text.strip() for l in lines)), sl, facts)
                     continue
                 msg = ''
-                if form != want:
+                if form != want and form not in also:
                     msg = 'for a %s the code generator forms a %s; required: %s' % (_cell_doc(cell), FORM_DOC[form], FORM_DOC[want])
                     if want == 'tls-gd':
                         msg += ' -- local-exec/GOT forms of a thread-local address cannot be linked into a shared object or address the wrong storage'
-                ag.note(key, form == want, msg, sl, facts)
+                ag.note(key, form == want or form in also, msg, sl, facts)
             if not got_any:
                 ag.undecided(key, 'no path of gen_addr matches opt_fpic=%d' % fl['fpic'], fline)
     if n == 0:
@@ -563,22 +664,50 @@ def _cell_doc(cell):
 # =============================================================================================
 # R15.3 liveness of static inline functions
 # =============================================================================================
-class ParseEnv:
-    """Engine I over parse.c with every function opaque except the ones under analysis"""
+class UnitEnv:
+    """Engine I over one unit with every function opaque except the ones under analysis and the private helpers
+    only they call (so that extracting a helper from an analysed function does not blind the rule)"""
 
-    def __init__(self, P, cg):
+    def __init__(self, P, cg, uname):
         self.P = P; self.cg = cg
-        self.u = P.unit(PU)
+        self.u = P.unit(uname)
         self.E = self.u.enums
         self.all = set()
         for un in P.unit_names:
             self.all |= set(P.unit(un).functions)
+        self.callers = {}
+        for f, fd in self.u.functions.items():
+            for n in fd.walk():
+                if n.kind == 'DeclRefExpr' and n.ref_kind == 'FunctionDecl' and n.ref_name in self.u.functions:
+                    self.callers.setdefault(n.ref_name, set()).add(f)
 
-    def interp(self, keep, cut=None, globals_=None, models=None, **kw):
-        cfg = {'opaque': self.all - set(keep), 'cut': cut or {}, 'lazy_field': self.cg.lazy_field, 'track_stores': True,
-               'globals': globals_ or {}, 'models': models or {}}
+    def inlined(self, keep, blocked):
+        s = set(keep)
+        changed = True
+        while changed:
+            changed = False
+            for g in self.u.functions:
+                if g in s or g in blocked:
+                    continue
+                cs = self.callers.get(g, set()) - {g}
+                if cs and cs <= s:
+                    s.add(g); changed = True
+        return s
+
+    def interp(self, keep, cut=None, globals_=None, models=None, opaque=(), **kw):
+        cut = cut or {}
+        models = models or {}
+        inl = self.inlined(keep, set(opaque) | set(cut) | set(models))
+        cfg = {'opaque': self.all - inl, 'cut': cut, 'lazy_field': self.cg.lazy_field if self.cg else None, 'track_stores': True,
+               'globals': globals_ or {}, 'models': models}
         cfg.update(kw)
-        return Interp(self.P, self.u, cfg)
+        it = Interp(self.P, self.u, cfg)
+        it.c15_inlined = inl - set(keep)
+        return it
+
+
+def ParseEnv(P, cg):
+    return UnitEnv(P, cg, PU)
 
 
 def _fresh_bool(ctx, what):
@@ -634,7 +763,7 @@ def r153_function(pe, rep):
                 def h_body(it, ctx, n, args):
                     ctx.emit('body', ctx.globals.get('current_fn', ctx.c15_cf0), n.line)
                     return Obj('Node', lazy=True, label='body')
-                it = pe.interp(('function', 'new_gvar', 'new_var'),
+                it = pe.interp(('function', 'new_gvar', 'new_var'), opaque=('create_param_lvars', 'resolve_goto_labels'),
                                cut={'find_func': h_find, 'equal': h_equal, 'consume': h_consume, 'declarator': h_decl, 'compound_stmt': h_body},
                                globals_={'current_fn': lambda ctx: ctx.c15_cf0})
 
@@ -718,10 +847,10 @@ def _attr_doc(attr, isdef):
     return '`%s` (%s)' % (' '.join(w) or 'plain', 'definition' if isdef else 'prototype')
 
 
-def r153_primary(pe, rep, root_marks_permanent):
+def r153_primary(pe, rep, root_marks_permanent, linkage_roots_hold):
     """every reference to a function is recorded: on current_fn->refs inside a function, as a root mark at file scope"""
     u = pe.u
-    fline = u.fn('primary').line
+    fline = fline0 = u.fn('primary').line
     ag = Agg(rep, 'R15.3', PU, 'primary')
     E = pe.E
 
@@ -732,11 +861,15 @@ def r153_primary(pe, rep, root_marks_permanent):
         if args[0] is ctx.c15_tok:
             return 0          # the token is an ordinary identifier: none of the keywords / punctuators primary() tests for
         return _fresh_bool(ctx, 'equal')
-    it = pe.interp(('primary',), cut={'find_var': h_findvar, 'equal': h_equal, 'strarray_push': None, 'new_var_node': None},
-                   globals_={'current_fn': lambda ctx: ctx.c15_cf0})
+    nulls = []
+    it = pe.interp(('primary',), opaque=('generic_selection', 'new_ulong'), cut={'find_var': h_findvar, 'equal': h_equal, 'strarray_push': None, 'new_var_node': None},
+                   globals_={'current_fn': lambda ctx: ctx.c15_cf0}, on_null_deref=lambda it_, n: nulls.append(n.line))
     n = 0
     for inside in (0, 1):
         for callee in _bits(('is_definition', 'is_static', 'is_inline', 'is_root')):
+            if not (callee['is_static'] and callee['is_inline']) and not callee['is_root']:
+                continue        # function() makes every function that is not static inline a root
+
             def mk(ctx, inside=inside, callee=callee):
                 ctx.c15_tok = Obj('Token', lazy=True, label='tok')
                 ctx.c15_tok.fields['kind'] = E['TK_IDENT']
@@ -751,10 +884,16 @@ def r153_primary(pe, rep, root_marks_permanent):
                 ctx.c15_sc = sc
                 ctx.c15_cf0 = Obj('Obj', lazy=True, label='caller') if inside else 0
                 return [Sym('rest', 'Token **'), ctx.c15_tok]
+            del nulls[:]
             res = it.explore('primary', mk)
             rets = [(c, o) for c, o in res if o[0] == 'ret']
             if not rets:
-                ag.undecided('reference/no-path', 'primary() has no returning path for an identifier that names a function', fline)
+                if nulls:
+                    ag.note('reference/file-scope-marks-root' if not inside else 'reference/inside-function-recorded', False,
+                            'primary() dereferences a NULL pointer when a function is referenced %s (e.g. current_fn->refs while current_fn is NULL): the compiler crashes on `int (*p)(void) = f;`' % ('inside a function' if inside else 'at file scope'),
+                            nulls[0], {'referenced function': callee})
+                else:
+                    ag.undecided('reference/no-path', 'primary() has no returning path for an identifier that names a function', fline)
                 continue
             for ctx, out in rets:
                 n += 1
@@ -763,6 +902,8 @@ def r153_primary(pe, rep, root_marks_permanent):
                 root_now = _final(it, v.fields.get('is_root'))
                 facts = {'referenced function': callee, 'inside a function': bool(inside), 'path': ctx.trail[-6:],
                          'events': [repr(e[:3]) for e in ctx.events if e[0] in ('call', 'fstore')][:8]}
+                evl = [e[3] for e in ctx.events if e[0] in ('call', 'store') and len(e) > 3 and isinstance(e[3], int)]
+                fline = evl[0] if evl else fline0
                 if inside:
                     caller = ctx.c15_cf0
                     rec = [e for e in pushes if isinstance(e[2][0], Obj) and e[2][0] is caller.fields.get('refs') and same(e[2][1], v.fields['name'])]
@@ -771,6 +912,8 @@ def r153_primary(pe, rep, root_marks_permanent):
                     alt = (not rec) and root_now == 1 and caller_root == 1 and not callee['is_root']
                     if alt and root_marks_permanent:
                         ok = True       # marking the callee of an always-emitted caller as a root is equivalent when root marks are never withdrawn
+                    if not rec and not pushes and linkage_roots_hold and not (callee['is_static'] and callee['is_inline']) and root_now == callee['is_root']:
+                        ok = True       # a function that is not static inline is a root by its linkage: it is emitted whether or not the reference is recorded
                     if alt and not root_marks_permanent:
                         msg = ('a reference made inside an always-emitted function is not recorded on current_fn->refs; the referenced function is marked is_root instead, '
                                'but function() recomputes is_root on every later declaration/definition of it, so a static inline function that is declared, referenced and only '
@@ -790,7 +933,7 @@ def r153_primary(pe, rep, root_marks_permanent):
                             fline, facts)
     if n == 0:
         raise AnalysisBroken('primary(): the identifier arm was not reached')
-    ag.flush(fline)
+    ag.flush(fline0)
 
 
 def r153_mark_live(pe, rep):
@@ -817,7 +960,7 @@ def r153_mark_live(pe, rep):
             fns = {}
             for k, nm in enumerate(NAMES):
                 o = Obj('Obj', lazy=False, label=nm)
-                o.fields.update(dict(name=nm, is_function=1, is_live=0))
+                o.fields.update(dict(name=nm, is_function=1, is_live=0, is_static=1, is_inline=1, is_definition=1, is_root=0, is_local=0))
                 refs = Obj('StringArray', lazy=False, label=nm + '.refs')
                 names = [x if isinstance(x, str) else NAMES[x] for x in g[k]]
                 refs.fields.update(dict(data=Arr(list(names)), len=len(names), capacity=8))
@@ -845,13 +988,17 @@ def r153_mark_live(pe, rep):
         cyc = 'cyclic' if _has_cycle(g) else 'acyclic'
         facts = {'reference graph': desc}
         if nulls:
+            ngraph += 1
             ag.note('unresolved-name-tolerated', False, 'mark_live dereferences the result of find_func() without testing it: a name recorded for a block-scope prototype resolves to NULL (graph %s)' % desc, nulls[0], facts)
             continue
         rets = [(c, o) for c, o in res if o[0] == 'ret']
         if not rets:
+            ngraph += 1
             ag.note('terminates/' + cyc, False, 'mark_live(f0) does not return on the reference graph %s (unbounded recursion: is_live must be set and tested before following references)' % desc, fline, facts)
             continue
         ngraph += 1
+        if len(rets) != 1:
+            ag.undecided('closure/evaluated', 'mark_live is not deterministic on a concrete graph (%d paths)' % len(rets), fline)
         for ctx, out in rets:
             live = set(nm for nm, o in ctx.c15_fns.items() if _final(it, o.fields.get('is_live')) == 1)
             ag.note('terminates/' + cyc, True)
@@ -907,7 +1054,7 @@ def r153_parse(pe, rep):
         ctx.c15_scanned = Sym('globals-after-scan', 'Obj *')
         ctx.globals['globals'] = ctx.c15_scanned
         return None
-    it = pe.interp(('parse',), cut={'function': havoc, 'global_variable': havoc, 'parse_typedef': havoc, 'mark_live': h_mark, 'scan_globals': h_scan}, loop_limit=2)
+    it = pe.interp(('parse',), opaque=('declare_builtin_functions',), cut={'function': havoc, 'global_variable': havoc, 'parse_typedef': havoc, 'mark_live': h_mark, 'scan_globals': h_scan}, loop_limit=2)
 
     def mk(ctx):
         ctx.c15_havoc = False
@@ -966,12 +1113,13 @@ def _first_global(ctx):
 def r153(pe, rep):
     rep.rule('R15.3', 'liveness: is_root is false exactly for unreferenced static inline functions and a root mark is never withdrawn; every reference to a function is '
              'recorded (on current_fn->refs inside a function, as a root mark at file scope); current_fn designates the function exactly while its body is parsed; '
-             'mark_live marks before it recurses, tests is_live, visits every recorded reference; parse marks from every root', floor=12)
+             'mark_live marks before it recurses, tests is_live, visits every recorded reference; parse marks from every root', floor=18)
     _need(pe.u, PU, 'function', 'primary', 'find_func', 'mark_live', 'parse', 'new_gvar')
     r153_function(pe, rep)
     keep = [o for o in rep.obs if o['key'] == 'R15.3:%s:function:is_root/redeclaration-keeps-root-mark' % PU]
     permanent = bool(keep) and all(o['verdict'] == 'holds' for o in keep)
-    r153_primary(pe, rep, permanent)
+    lk = [o for o in rep.obs if o['key'] in ('R15.3:%s:function:is_root/first-declaration' % PU, 'R15.3:%s:function:is_root/redeclaration' % PU)]
+    r153_primary(pe, rep, permanent, len(lk) == 2 and all(o['verdict'] == 'holds' for o in lk))
     r153_mark_live(pe, rep)
     r153_parse(pe, rep)
 
@@ -1079,15 +1227,17 @@ def r155_scan_globals(pe, rep):
     lists += [(('f', 'F'), ('x', 'T'), ('g', 'F'), ('x', 'T')), (('x', 'T'), ('f', 'F'), ('x', 'D'), ('y', 'T')), (('x', 'T'), ('x', 'T'), ('x', 'T'), ('x', 'T')),
               (('x', 'E'), ('x', 'T'), ('x', 'E'), ('x', 'T'))]
     n = 0
-    for lst in lists:
+    for lst, static in [(l, st) for st in (0, 1) for l in lists]:
         if any(sum(1 for nm, k in lst if k == 'D' and nm == name) > 1 for name in ('x', 'y')):
             continue        # two initialised definitions of one name: not a valid program
+        if static and any(k in 'EF' for nm, k in lst):
+            continue        # the internal-linkage variant is run on object definitions only
 
-        def mk(ctx, lst=lst):
+        def mk(ctx, lst=lst, static=static):
             objs = []
             for idx, (nm, k) in enumerate(lst):
                 o = Obj('Obj', lazy=False, label='%s%d:%s' % (nm, idx, k))
-                o.fields.update(dict(name=nm, is_function=int(k == 'F'), is_definition=int(k != 'E'), is_tentative=int(k == 'T'), is_static=0, next=0))
+                o.fields.update(dict(name=nm, is_function=int(k == 'F'), is_definition=int(k != 'E'), is_tentative=int(k == 'T'), is_static=static, is_tls=0, is_local=0, is_root=0, next=0))
                 objs.append(o)
             for a, b in zip(objs, objs[1:]):
                 a.fields['next'] = b
@@ -1095,7 +1245,7 @@ def r155_scan_globals(pe, rep):
             return []
         res = it.explore('scan_globals', mk)
         rets = [(c, o) for c, o in res if o[0] == 'ret']
-        desc = ' -> '.join('%s:%s' % (nm, {'T': 'tentative', 'D': 'initialised', 'E': 'extern', 'F': 'function'}[k]) for nm, k in lst) or '(empty)'
+        desc = ('static ' if static else '') + (' -> '.join('%s:%s' % (nm, {'T': 'tentative', 'D': 'initialised', 'E': 'extern', 'F': 'function'}[k]) for nm, k in lst) or '(empty)')
         if len(rets) != 1:
             ag.undecided('evaluation', 'scan_globals has %d returning paths on the concrete list %s' % (len(rets), desc), fline)
             continue
@@ -1160,7 +1310,7 @@ def r155(pe, rep):
 # =============================================================================================
 def r156(pe, rep):
     rep.rule('R15.6', 'string literals and block-scope static objects are created by new_anon_gvar: a fresh assembler-local name (.L..n) per object, is_static, '
-             'is_definition, on `globals` (not `locals`); the block-scope identifier is bound to that object; _Thread_local and the initialiser are honoured', floor=8)
+             'is_definition, on `globals` (not `locals`); the block-scope identifier is bound to that object; _Thread_local and the initialiser are honoured', floor=10)
     u = pe.u
     _need(u, PU, 'new_gvar', 'new_anon_gvar', 'new_string_literal', 'declaration')
     ag = Agg(rep, 'R15.6', PU, 'new_anon_gvar')
@@ -1233,7 +1383,7 @@ def r156(pe, rep):
             def h_init(it, ctx, nd, args):
                 ctx.emit('init', _final(it, args[2]) if len(args) > 2 else None, nd.line)
                 return None
-            it = pe.interp(('declaration',) + keep, cut={'equal': h_equal, 'declarator': h_decl, 'get_ident': h_ident, 'push_scope': h_push, 'gvar_initializer': h_init},
+            it = pe.interp(('declaration',) + keep, opaque=('new_alloca', 'new_vla_ptr'), cut={'equal': h_equal, 'declarator': h_decl, 'get_ident': h_ident, 'push_scope': h_push, 'gvar_initializer': h_init},
                            globals_={'globals': lambda ctx: ctx.c15_g0, 'locals': lambda ctx: ctx.c15_l0})
 
             def mk(ctx, tls=tls):
@@ -1286,12 +1436,10 @@ def _glob(it, ctx, name, default=None):
 
 def r157(P, rep):
     rep.rule('R15.7', 'option plumbing: -fcommon/-fno-common (last one wins) and -fpic/-fPIC set the globals read by emit_data/gen_addr and nothing else does; -static/-shared '
-             'reach run_linker, which selects start files, dynamic linker and libraries by them', floor=12)
-    mu = P.unit(MU)
+             'reach run_linker, which selects start files, dynamic linker and libraries by them', floor=18)
+    me = UnitEnv(P, None, MU)
+    mu = me.u
     _need(mu, MU, 'parse_args', 'run_linker')
-    allf = set()
-    for un in P.unit_names:
-        allf |= set(P.unit(un).functions)
 
     def m_push(it, ctx, nd, args):
         arr = args[0]
@@ -1310,7 +1458,7 @@ def r157(P, rep):
     ag = Agg(rep, 'R15.7', MU, 'parse_args')
     fline = mu.fn('parse_args').line
     keepf = ('parse_args', 'take_arg')
-    it = Interp(P, mu, {'opaque': allf - set(keepf), 'models': {'strarray_push': m_push}, 'track_stores': True})
+    it = me.interp(keepf, opaque=('define', 'parse_opt_x', 'usage'), models={'strarray_push': m_push})
     FLAGS = ('opt_fcommon', 'opt_fpic', 'opt_static', 'opt_shared')
     base = None
     table = [((), {}),
@@ -1327,7 +1475,11 @@ def r157(P, rep):
         okp = [(c, o) for c, o in res if o[0] == 'ret']
         name = '+'.join(opts) or 'no-option'
         if not okp:
-            ag.undecided('option/' + name, 'parse_args has no returning path for `chibicc %s a.c` (%s)' % (' '.join(opts), [o for c, o in res][:2]), fline)
+            errs = [o for c, o in res if o[0] == 'noreturn']
+            if errs and len(errs) == len(res):
+                ag.note('option/' + name, False, '`chibicc %s a.c` is rejected: %s(%s)' % (' '.join(opts), errs[0][1], ', '.join(repr(a) for a in errs[0][2])), errs[0][3], {'argv': list(opts)})
+            else:
+                ag.undecided('option/' + name, 'parse_args has no returning path for `chibicc %s a.c`' % ' '.join(opts), fline)
             continue
         allvals = []
         for ctx, out in okp:
@@ -1369,9 +1521,9 @@ def r157(P, rep):
         def m_sub(it_, ctx, nd, args):
             ctx.emit('exec', args[0], nd.line)
             return None
-        it = Interp(P, mu, {'opaque': allf - {'run_linker'}, 'models': {'strarray_push': m_push, 'run_subprocess': m_sub},
-                            'globals': {'opt_static': st, 'opt_shared': sh,
-                                        'ld_extra_args': lambda ctx, st=st, sh=sh: _strarray('g:ld_extra_args', (['-static'] if st else []) + (['-shared'] if sh else []))}})
+        it = me.interp(('run_linker',), opaque=('find_file', 'find_gcc_libpath', 'find_libpath'), models={'strarray_push': m_push, 'run_subprocess': m_sub},
+                       globals_={'opt_static': st, 'opt_shared': sh,
+                                 'ld_extra_args': lambda ctx, st=st, sh=sh: _strarray('g:ld_extra_args', (['-static'] if st else []) + (['-shared'] if sh else []))})
 
         def mk(ctx):
             return [_strarray('inputs', ['a.o', 'b.o']), 'a.out']
